@@ -182,7 +182,9 @@ func obsC06Reg(in string) string {
 				break
 			}
 		}
-		out = verdict + " | " + renderRun(first)
+		// the case file is read as UTF-8: a table with a character cut in two (a change to the desc[:100] cut) must
+		// arrive as a disagreement with the model, not break the reader
+		out = strings.ToValidUTF8(verdict+" | "+renderRun(first), "\\xNN")
 	})
 	return out
 }
